@@ -1,6 +1,10 @@
 package metric
 
-import vrt "github.com/goark/go-cvss/internal/zzvrt"
+import (
+	"strconv"
+
+	vrt "github.com/goark/go-cvss/internal/zzvrt"
+)
 
 func pickEnv() (suffix string, cr, ir, ar, mav, mac, mpr, mui, ms, mc, mi, ma string) {
 	cr = vrt.Pick("CR", "X", "H", "M", "L")
@@ -44,4 +48,8 @@ func VH_C03_env() {
 	}
 	want := specEnv(v31, av, ac, pr, ui, s, c, i, a, e, rl, rc, cr, ir, ar, mav, mac, mpr, mui, ms, mc, mi, ma)
 	vrt.Assert(em.Score() == tenth(want), "environmental score equals the FIRST equations")
+	// C06 at the environmental level: grid, range and band (the score is k/10 by the line above)
+	vrt.Assert(want >= 0 && want <= 100, "environmental score is between 0.0 and 10.0")
+	vrt.Assert(em.Severity() == specSeverity(want), "environmental severity is the rating band of the environmental score")
+	vrt.Assert(strconv.FormatFloat(em.Score(), 'f', -1, 64) == specFmt(want), "environmental score prints with at most one decimal digit")
 }
